@@ -19,6 +19,15 @@ Record delivery := { d_idx : nat; d_power : Z; d_vote : vote; d_peer : N }.
 Definition d_input (d : delivery) : input := IVote (d_vote d) (d_peer d).
 Definition powers_of (ds : list delivery) : Z := fold_right (fun d acc => d_power d + acc) 0 ds.
 
+(* what a machine signed, by vote type: (height, round, block id) in signing order *)
+Definition signed (ty : N) (o : list output) : list (Z * Z * blockid) :=
+  flat_map (fun x => match x with
+                     | OSignVote ty' hh rr x => if (ty' =? ty)%N then [(hh, rr, x)] else []
+                     | _ => []
+                     end) o.
+Lemma signed_app ty a b : signed ty (a ++ b) = signed ty a ++ signed ty b.
+Proof. apply flat_map_app. Qed.
+
 Section Phases.
 Variable E : env.
 Variables h r : Z.
@@ -137,7 +146,7 @@ Lemma enter_prevote_wait_res s :
   cs_halted s = false -> cs_height s = h -> cs_round s = r ->
   (cs_step s = SPrevote \/ cs_step s = SPrevoteWait) ->
   o_has_any (prevotes (cs_votes s) r) = true ->
-  exists s' o, enter_prevote_wait h r s = (s', o) /\ pcs o = [] /\ same_core s s' /\
+  exists s' o, enter_prevote_wait h r s = (s', o) /\ signed PRECOMMIT o = [] /\ same_core s s' /\
                (cs_step s' = SPrevote \/ cs_step s' = SPrevoteWait).
 Proof.
   intros Hh H1 H2 Hst Ha. unfold enter_prevote_wait, step_le.
@@ -195,7 +204,7 @@ Lemma P2_step rem pv pc s d s' o :
   P2 (d_idx d :: rem) pv pc s -> ~ In (d_idx d) rem -> vote_from (vs_vals pv) PREVOTE d ->
   handle E s (d_input d) = (s', o) ->
   exists pv', P2 rem pv' pc s' /\ tally Bid pv' = tally Bid pv + d_power d /\ vs_vals pv' = vs_vals pv /\
-    ((vs_maj23 pv = None /\ vs_maj23 pv' = None /\ pcs o = []) \/
+    ((vs_maj23 pv = None /\ vs_maj23 pv' = None /\ signed PRECOMMIT o = []) \/
      (vs_maj23 pv = None /\ vs_maj23 pv' = Some Bid /\ o = [OSignVote PRECOMMIT h r Bid]) \/
      (vs_maj23 pv = Some Bid /\ vs_maj23 pv' = Some Bid /\ o = [])).
 Proof.
@@ -291,16 +300,16 @@ Qed.
 
 (* ---------------------------------------------------------------- phase 2, all prevotes *)
 
-Lemma pcs_precommit : pcs [OSignVote PRECOMMIT h r Bid] = [(h, r, (hb, ph))].
+Lemma pcs_precommit : signed PRECOMMIT [OSignVote PRECOMMIT h r Bid] = [(h, r, Bid)].
 Proof. reflexivity. Qed.
 
 Lemma P2_run : forall ds pv pc s s' os,
   P2 (map d_idx ds) pv pc s -> NoDup (map d_idx ds) -> Forall (vote_from (vs_vals pv) PREVOTE) ds ->
   run E s (map d_input ds) = (s', os) ->
   exists pv', P2 [] pv' pc s' /\ tally Bid pv' = tally Bid pv + powers_of ds /\ vs_vals pv' = vs_vals pv /\
-    ((vs_maj23 pv = None /\ vs_maj23 pv' = None /\ pcs (concat os) = []) \/
-     (vs_maj23 pv = None /\ vs_maj23 pv' = Some Bid /\ pcs (concat os) = [(h, r, (hb, ph))]) \/
-     (vs_maj23 pv = Some Bid /\ vs_maj23 pv' = Some Bid /\ pcs (concat os) = [])).
+    ((vs_maj23 pv = None /\ vs_maj23 pv' = None /\ signed PRECOMMIT (concat os) = []) \/
+     (vs_maj23 pv = None /\ vs_maj23 pv' = Some Bid /\ signed PRECOMMIT (concat os) = [(h, r, Bid)]) \/
+     (vs_maj23 pv = Some Bid /\ vs_maj23 pv' = Some Bid /\ signed PRECOMMIT (concat os) = [])).
 Proof.
   induction ds as [|d ds IH]; intros pv pc s s' os HP Hnd Hall Er.
   - cbn in Er. injection Er as <- <-. exists pv. split; [exact HP|]. split; [cbn; lia|]. split; [reflexivity|].
@@ -311,7 +320,7 @@ Proof.
     destruct (P2_step _ _ _ _ _ _ _ HP Hni Hv E1) as (pv1 & HP1 & T1 & V1 & C1).
     destruct (IH pv1 pc s1 s2 os2 HP1 Hnd' ltac:(rewrite V1; exact Hall') E2) as (pv2 & HP2 & T2 & V2 & C2).
     exists pv2. split; [exact HP2|]. split; [cbn [powers_of fold_right]; fold (powers_of ds); lia|]. split; [congruence|].
-    cbn [concat]. rewrite pcs_app.
+    cbn [concat]. rewrite signed_app.
     destruct C1 as [(X1 & X2 & X3) | [(X1 & X2 & X3) | (X1 & X2 & X3)]];
       destruct C2 as [(Y1 & Y2 & Y3) | [(Y1 & Y2 & Y3) | (Y1 & Y2 & Y3)]]; try congruence;
       rewrite ?X3, ?Y3, ?pcs_precommit; cbn [app];
@@ -471,12 +480,14 @@ Definition round_open (idxs : list nat) (vals : valset) (ty : N) (vs : voteset) 
 
 (* a machine at the start of the round: at (h, r), step Propose or earlier, no proposal yet,
    the proposal acceptable, unlocked or locked on the proposed block *)
-Definition ready (idxs : list nat) (vals : valset) (s : cstate) : Prop :=
+Definition ready_core (idxs : list nat) (vals : valset) (s : cstate) : Prop :=
   cs_halted s = false /\ cs_height s = h /\ cs_round s = r /\ step_rank (cs_step s) <= 3 /\
   cs_proposal s = None /\ (cs_pparts s = None \/ cs_pparts s = Some (new_parts ph)) /\
-  good_proposal E s p b /\ lock_ok s /\ 0 <= r <= hv_round (cs_votes s) /\
+  good_proposal E s p b /\ 0 <= r <= hv_round (cs_votes s) /\
   exists pv pc, lookup_round r (hv_sets (cs_votes s)) = Some (pv, pc) /\
     round_open idxs vals PREVOTE pv /\ round_open idxs vals PRECOMMIT pc.
+Definition ready (idxs : list nat) (vals : valset) (s : cstate) : Prop :=
+  ready_core idxs vals s /\ lock_ok s.
 
 Definition ready2 (idxs : list nat) (vals : valset) (s : cstate) : Prop :=
   exists pv pc, P2 idxs pv pc s /\ round_open idxs vals PREVOTE pv /\ round_open idxs vals PRECOMMIT pc.
@@ -490,7 +501,7 @@ Lemma phase1 idxs vals s s' os :
   ready idxs vals s -> run E s proposal_inputs = (s', os) ->
   concat os = [OSignVote PREVOTE h r Bid] /\ ready2 idxs vals s'.
 Proof.
-  intros (A1 & A2 & A3 & A4 & A5 & A6 & G & Lk & Hr & pv & pc & L & Rv & Rc) Er.
+  intros ((A1 & A2 & A3 & A4 & A5 & A6 & G & Hr & pv & pc & L & Rv & Rc) & Lk) Er.
   unfold proposal_inputs in Er. cbn [run] in Er.
   destruct (handle E s (IProposal p)) as [s1 o1] eqn:E1.
   destruct (handle E s1 (IPart h ph 0%N (Some b))) as [s2 o2] eqn:E2. injection Er as <- <-.
@@ -520,7 +531,7 @@ Lemma phase2 idxs vals s ds s' os :
   NoDup (map d_idx ds) -> (forall j, In j (map d_idx ds) -> In j idxs) ->
   Forall (vote_from vals PREVOTE) ds -> quorum vals <= powers_of ds ->
   run E s (map d_input ds) = (s', os) ->
-  pcs (concat os) = [(h, r, (hb, ph))] /\ ready3 idxs vals s'.
+  signed PRECOMMIT (concat os) = [(h, r, Bid)] /\ ready3 idxs vals s'.
 Proof.
   intros (pv & pc & HP & (Ov & Fv & Mv & Vv & Tv) & Rc) Hnd Hin Hall Q Er.
   assert (HP' : P2 (map d_idx ds) pv pc s).
